@@ -270,14 +270,18 @@ class World:
             return False
         if self._slot(s) is None:
             return False
-        if via == "get" and h.kind == "dict":
-            child = h.real.get(k)
-        elif via == "setdefault" and h.kind == "dict":
-            child = h.real.setdefault(k)
-        elif via == "iter" and h.kind == "list":
-            child = list(iter(h.real))[k]
-        else:
-            child = h.real[k]
+        try:
+            if via == "get" and h.kind == "dict":
+                child = h.real.get(k)
+            elif via == "setdefault" and h.kind == "dict":
+                child = h.real.setdefault(k)
+            elif via == "iter" and h.kind == "list":
+                child = list(iter(h.real))[k]
+            else:
+                child = h.real[k]
+        except Exception as e:  # noqa: BLE001 - the model says this read succeeds
+            raise Mismatch("read_raised", step=s, error=f"{type(e).__name__}: {str(e)[:160]}",
+                           expected=copy.deepcopy(v))
         from synced_collections import SyncedCollection
         if not isinstance(child, SyncedCollection):
             raise Mismatch("take_not_synced", step=s, got=type(child).__name__,
@@ -351,7 +355,11 @@ class World:
         for i, h in enumerate(self.handles):
             if not h.attached:
                 continue
-            got = plain(h.real())
+            try:
+                got = plain(h.real())
+            except Exception as e:  # noqa: BLE001
+                raise Mismatch("final_read_raised", handle=i, path=list(h.path),
+                               error=f"{type(e).__name__}: {str(e)[:160]}")
             exp = self.model_at(h)
             if got != exp:
                 raise Mismatch("final_read", handle=i, path=list(h.path), got=got,
